@@ -1039,6 +1039,135 @@ def c13(rec):
                         out.append(V(None, st="agree"))
         except Exception as e:  # noqa
             out.append(V("moment_matching:" + type(e).__name__, st="declined_error", det=str(e)[:100]))
+    # moment matching that collapses only SOME of the integer inputs: per kept index the matched
+    # Gaussian must carry the mass, mean and covariance of the mixture over the collapsed ones
+    if len(batch) >= 2 and not keep and all(f["ok"] for f in rec["full"]):
+        import itertools as _it3
+        from collections import OrderedDict as _OD3
+        from funsor.interpretations import moment_matching
+        bn = [n for n, _ in batch]
+        lw = np.log(1.0 + np.arange(int(np.prod(bsizes)), dtype=np.float64)).reshape(tuple(bsizes))
+        wt = Tensor(lw, _OD3((n, fbuild.dom_of(d)) for n, d in batch))
+        D = len(rec["full"][0]["mean"])
+        zs_all = (np.array([np.exp(_cv(f["logz"])) for f in rec["full"]]).reshape(tuple(bsizes))) * np.exp(lw)
+        means_all = np.array([[vals.scalar_to_float(s) for s in f["mean"]] for f in rec["full"]]).reshape(tuple(bsizes) + (D,))
+        covs_all = np.array([[[vals.scalar_to_float(x) for x in row] for row in f["cov"]] for f in rec["full"]]).reshape(tuple(bsizes) + (D, D))
+        off, pos = {}, 0
+        for n, d in rec["leaf"]["ins"]:
+            if d["dt"] == 0:
+                size = int(np.prod(d["sh"])) if d["sh"] else 1
+                off[n] = list(range(pos, pos + size))
+                pos += size
+        for r_ in range(1, len(bn)):
+            for coll in _it3.combinations(bn, r_):
+                what = "moment_matching_partial{%s}" % ",".join(coll)
+                try:
+                    with moment_matching:
+                        mm = (wt + g).reduce(fops.logaddexp, frozenset(coll))
+                    kept = [n for n in bn if n not in coll]
+                    if set(mm.inputs) & set(coll) or not set(kept) <= set(mm.inputs):
+                        out.append(V(what + ":inputs", st="declined_lazy", det=sorted(mm.inputs)))
+                        continue
+                    gterm = [t_ for t_ in getattr(mm, "terms", (mm,)) if type(t_).__name__ == "Gaussian"]
+                    mass = mm.reduce(fops.logaddexp, rv)
+                    if len(gterm) != 1 or not isinstance(mass, Tensor):
+                        out.append(V(what + ":unexpected_form", st="declined_lazy", det=type(mm).__name__))
+                        continue
+                    G = gterm[0]
+                    order = []
+                    for n, d in G.inputs.items():
+                        if d.dtype == "real":
+                            order.extend(off[n])
+                    gints = [n for n, d in G.inputs.items() if d.dtype != "real"]
+                    P = G.prec_sqrt @ np.swapaxes(G.prec_sqrt, -1, -2)
+                    C = np.linalg.inv(P)
+                    m_ = (C @ (G.prec_sqrt @ G.white_vec[..., None]))[..., 0]
+                    axes = tuple(bn.index(n) for n in coll)
+                    bad = None
+                    for kidx in _it3.product(*[range(bsizes[bn.index(n)]) for n in kept]):
+                        sel = [slice(None)] * len(bn)
+                        for n, i in zip(kept, kidx):
+                            sel[bn.index(n)] = i
+                        zs = zs_all[tuple(sel)].reshape(-1)
+                        means = means_all[tuple(sel)].reshape(-1, D)
+                        covs = covs_all[tuple(sel)].reshape(-1, D, D)
+                        Z = zs.sum()
+                        pr = zs / Z
+                        mean = (pr[:, None] * means).sum(0)
+                        cov = (pr[:, None, None] * (covs + means[:, :, None] * means[:, None, :])).sum(0) - mean[:, None] * mean[None, :]
+                        at = dict(zip(kept, kidx))
+                        got_mass = float(np.asarray(mass(**{k: v for k, v in at.items() if k in mass.inputs}).data))
+                        gi = tuple(at[n] for n in gints)
+                        if not vals.close(got_mass, float(np.log(Z))):
+                            bad = (what + "_mass", {"at": at, "got": got_mass, "want": float(np.log(Z))})
+                        elif not vals.close(m_[gi], mean[order]):
+                            bad = (what + "_mean", {"at": at, "got": m_[gi].tolist(), "want": mean[order].tolist()})
+                        elif not vals.close(C[gi], cov[np.ix_(order, order)]):
+                            bad = (what + "_covariance", {"at": at, "got": C[gi].tolist(), "want": cov[np.ix_(order, order)].tolist()})
+                    out.append(V(bad[0], det=bad[1]) if bad else V(None, st="agree"))
+                except Exception as e:  # noqa
+                    out.append(V(what + ":" + type(e).__name__, st="declined_error", det=str(e)[:100]))
+    # Integrate(g, g', all reals) where g' is the SAME Gaussian with its inputs listed in another
+    # order (reversed): the value may not depend on the order in which an operand lists its inputs
+    if not keep and all(f["ok"] for f in rec["full"]) and len(rec["leaf"]["ins"]) >= 2:
+        try:
+            leaf = rec["leaf"]
+            nb = int(np.prod(bsizes)) if bsizes else 1
+            rdims = [(n, int(np.prod(d["sh"])) if d["sh"] else 1) for n, d in leaf["ins"] if d["dt"] == 0]
+            Dm = sum(k for _, k in rdims)
+            rk = leaf["rank"]
+            S = np.array(leaf["S"], dtype=object).reshape(tuple(bsizes) + (Dm, rk, 3))
+            W = np.array(leaf["w"], dtype=object).reshape(tuple(bsizes) + (rk, 3))
+            new_ins = list(reversed(leaf["ins"]))
+            # permute batch axes and the rows (real coordinates) of S accordingly
+            old_b = [n for n, d in leaf["ins"] if d["dt"] > 0 and not d["sh"]]
+            new_b = [n for n, d in new_ins if d["dt"] > 0 and not d["sh"]]
+            perm = [old_b.index(n) for n in new_b]
+            S2 = np.transpose(S, perm + [len(old_b), len(old_b) + 1, len(old_b) + 2])
+            W2 = np.transpose(W, perm + [len(old_b), len(old_b) + 1])
+            starts, pos = {}, 0
+            for n, k in rdims:
+                starts[n] = (pos, k)
+                pos += k
+            rows = []
+            for n, d in new_ins:
+                if d["dt"] == 0:
+                    a, k = starts[n]
+                    rows.extend(range(a, a + k))
+            S2 = S2[..., rows, :, :]
+            leaf2 = dict(leaf, ins=new_ins, S=S2.reshape(-1, 3).tolist(), w=W2.reshape(-1, 3).tolist())
+            g2 = fbuild.Builder().build(leaf2)
+            for b_ix, bi in enumerate(bpoints):
+                full = rec["full"][b_ix]
+                sub = {n: int(i) for (n, _), i in zip(batch, bi)}
+                ga = g(**sub) if sub else g
+                gb2 = g2(**sub) if sub else g2
+                r = Integrate(ga, gb2, rv)
+                want_e = float(np.exp(_cv(full["logz"]))) * vals.scalar_to_float(full["equad"])
+                if isinstance(r, (Tensor, Number)) and not r.inputs:
+                    got = float(np.asarray(r.data))
+                    out.append(V(None, st="agree") if vals.close(got, want_e) else
+                               V("integrate_gaussian_reordered_inputs_value", det={"batch": list(bi), "got": got, "want": want_e}))
+                else:
+                    out.append(V("integrate_reordered:lazy", st="declined_lazy"))
+            if batch:
+                # batched: both operands keep their integer inputs (listed in different orders)
+                r = Integrate(g, g2, rv)
+                bad = None
+                for b_ix, bi in enumerate(bpoints):
+                    full = rec["full"][b_ix]
+                    want_e = float(np.exp(_cv(full["logz"]))) * vals.scalar_to_float(full["equad"])
+                    got = evaluate(r, bi, ())
+                    if got is None:
+                        bad = ("integrate_reordered_batched:lazy", None)
+                    elif not vals.close(got, want_e):
+                        bad = ("integrate_gaussian_reordered_batched_value", {"batch": list(bi), "got": got, "want": want_e})
+                if bad and bad[1] is None:
+                    out.append(V(bad[0], st="declined_lazy"))
+                else:
+                    out.append(V(bad[0], det=bad[1]) if bad else V(None, st="agree"))
+        except Exception as e:  # noqa
+            out.append(V("integrate_reordered:" + type(e).__name__, st="declined_error", det=str(e)[:100]))
     # the same Gaussian built from the other parametrisations (exact integer P, eta from TLC)
     if not keep and all(f["ok"] for f in rec["full"]):
         from funsor.gaussian import Gaussian
@@ -1294,6 +1423,40 @@ def c14gauss(rec):
         except Exception as e:  # noqa
             bad = ("gaussian_sample_affine_failed:" + tag, "%s: %s" % (type(e).__name__, str(e)[:100]))
         out.append(V(bad[0], det=bad[1]) if bad else V(None, st="agree"))
+    # a mixture (log-weights over the integer inputs + the batched Gaussian): sampling the integer
+    # inputs together with the real ones must leave, for every particle, the mixture's total mass
+    if batch and not keep and all_ok:
+        lw = np.log(1.0 + np.arange(int(np.prod(bsizes)), dtype=np.float64)).reshape(tuple(bsizes))
+        wt = Tensor(lw, OrderedDict((n, fbuild.dom_of(d)) for n, d in batch))
+        mix = wt + g
+        allv = rv | frozenset(n for n, _ in batch)
+        want = float(np.logaddexp.reduce(np.array([_cv(rec["marg"][b_ix][0]["val"]) for b_ix in range(len(bpoints))])
+                                         + lw.reshape(-1)))
+        for sins in (OrderedDict(), OrderedDict([("p", Bint[4])])):
+            tag = "n%d" % len(sins)
+            for seed in (0, 1, 2):
+                try:
+                    np.random.seed(seed)
+                    s1 = mix.sample(allv, sins)
+                    np.random.seed(seed)
+                    s2 = mix.sample(allv, sins)
+                    m1 = s1.reduce(fops.logaddexp, allv)
+                    m2 = s2.reduce(fops.logaddexp, allv)
+                except Exception as e:  # noqa
+                    out.append(V("mixture_sample:" + type(e).__name__, st="declined_error", det=str(e)[:100]))
+                    continue
+                if not isinstance(m1, (Tensor, Number)) or set(m1.inputs) - set(sins):
+                    out.append(V("mixture_sample:lazy_mass", st="declined_lazy", det=type(m1).__name__))
+                    continue
+                got = np.asarray(m1.data, dtype=np.float64).reshape(-1)
+                if set(s1.inputs) != set(mix.inputs) | set(sins):
+                    out.append(V("mixture_sample_inputs:" + tag, det={"got": sorted(s1.inputs)}))
+                elif not np.array_equal(np.asarray(m1.data), np.asarray(m2.data)) or repr(s1) != repr(s2):
+                    out.append(V("mixture_sample_not_deterministic:" + tag, det={"seed": seed}))
+                elif not all(vals.close(float(x), want) for x in got):
+                    out.append(V("mixture_sample_mass:" + tag, det={"seed": seed, "got": got.tolist(), "want": want}))
+                else:
+                    out.append(V(None, st="agree"))
     return out
 
 
